@@ -49,6 +49,11 @@ def _pair(rng, tier):
             "adv_seed": 0}
     if spec["delete_old"] and rng.random() < 0.5:
         spec["delete_old_all"] = True
+    wf_idx = [i for i, m in enumerate(spec["moves"]) if m == "wf"]
+    if wf_idx and rng.random() < 0.5 and max(wf_idx) <= n - 1:
+        spec["cap"] = rng.randint(max(wf_idx), n - 1) + 0.5
+    if rng.random() < 0.15:
+        spec["lm1"] = -1.5
     N = rng.randint(8, 40) if rng.random() < 0.7 else rng.randint(40, 160)
     spec["steps"] = N
     nsplit = rng.choice([1, 1, 2, 3])
